@@ -217,6 +217,7 @@ def _byte_models(cls, boundary, examined):
         return A.Variant("Some", [cls])
 
     def is_boundary(I, a, n, env):
+        I.effects.append(("boundary", A.show(a[1]) if len(a) > 1 else "?", [], n))
         return A.Lit(boundary)
 
     def index(I, a, n, env):
@@ -348,6 +349,24 @@ def scanner_tables(ctx, res, rule):
                         elif outcome == "advance" and reached_check:
                             if pause in (True, None) and boundary and not is_blank:
                                 bad = "skips over byte %s while pausing (only ' ' and '\\t' may be skipped)" % cname_
+                        elif outcome == "stop" and not any(e[0] in ("examine", "boundary") for e in o["effects"]):
+                            # giving up without looking at a byte is only legitimate when the position is out of range (or, for the
+                            # forward scanners, the historical `cursor == 0` exit)
+                            ok_stop = False
+                            for k_, v_ in o["decisions"].items():
+                                m_ = re.match(r"^ord\((.+), (.+)\)$", k_)
+                                if not m_:
+                                    continue
+                                a_, b_ = m_.group(1), m_.group(2)
+                                if a_ == "bytes.len()" and b_ in ("cursor", "(cursor - 1)") and v_ in ("<", "="):
+                                    ok_stop = True
+                                if b_ == "bytes.len()" and a_ in ("cursor", "(cursor - 1)") and v_ in ("=", ">"):
+                                    ok_stop = True
+                                if (a_, b_) in (("0", "cursor"), ("cursor", "0")) and v_ == "=":
+                                    ok_stop = True
+                            if not ok_stop and o["decisions"]:
+                                bad = "gives up without examining a byte although the position is in range (decisions: %s): a line break / character there is never found" % (
+                                    {k_: v_ for k_, v_ in o["decisions"].items() if k_.startswith("ord(")})
                         if bad:
                             res.add(Finding(rule, fn, "table:" + key, "scanner %s" % bad, loc=T.loc(loop)))
                         else:
